@@ -19,7 +19,8 @@ package certwatcher
 //@   inline
 
 //@ func (*CertWatcher).ReadCertificate :: cw -> err
-//@   props C14
+//@   props C14,C16,C10
+//@   structural [C14,C16:write-lock-released-on-every-path] locks_released
 //@   requires cw != nil
 //@   assigns cw.currentCert, cwlog, lastLoadedPair
 //@   ensures [C14:one-load-per-call] cwlog == old(cwlog) ++ seq[int]{2}
@@ -27,7 +28,8 @@ package certwatcher
 //@   ensures [C14:swap-to-fully-loaded-pair] err == nil ==> cw.currentCert != nil && fresh(cw.currentCert) && val(cw.currentCert) == lastLoadedPair
 
 //@ func (*CertWatcher).GetCertificate :: cw, hello -> cert, err
-//@   props C14
+//@   props C14,C16
+//@   structural [C14,C16:read-lock-released-on-every-path] locks_released
 //@   requires cw != nil
 //@   assigns nothing
 //@   ensures [C14:serves-current-pair-never-errors] cert == cw.currentCert && err == nil
